@@ -13,7 +13,8 @@ REGISTRY = {
     'text': 'Lean theorems about an executable model of the three-phase parser, convert_type and the serializer, for every canonical '
             'annotation (decidable predicate canon = image of the documented grammar), every length, both include_plus settings: '
             'scan_roundtrip, parseMod_serialize, parseMods_roundtrip, parseStart_serializeStart, parseMiddle_serializeMiddle, '
-            'parseEnd_serializeEnd, parse_serialize (parse(serialize(a)) = a for single chains), serialize_fixpoint, '
+            'parseEnd_serializeEnd, parse_serialize (parse(serialize(a)) = a for single chains; stated for any per-modification choice of the + '
+            'spelling, include_plus False/True are instances), parse_any_section_order (leading sections in any order), serialize_fixpoint, '
             'parse_serialize_multi_partial (any number of chains joined by +), parse_joined (the parser reads any mix of + and //), '
             'int_value_roundtrip; parse_serialize_crosslink_false is the decide-checked counter-example for the known finding '
             '(serializer writes two backslashes for //). The model is tied to /repo by differential correspondence on grammar-derived '
@@ -41,6 +42,13 @@ def run(chk):
         'error message texts, non-ASCII digits/whitespace accepted by int()/float()',
         'float values are carried as the text of Python repr: exact for <= 15 significant digits and decimal point position in '
         '[-290, 300]; other accepted numbers are opaque in the model and compared numerically',
+    ]
+    chk.assumptions += [
+        'round-trip theorems are stated for canonical annotations (Spec/ProForma.lean: canon); the grammar-directed generator is '
+        'checked against canon on every run',
+        'input text is ASCII; float values are in the domain where the model reproduces Python repr (<= 15 significant digits, '
+        'decimal point position in [-290, 300])',
+        'equality in the theorems is structural equality of the model objects (implies ProFormaAnnotation.__eq__)',
     ]
     gen = L.Gen(rng, chk)
 
